@@ -162,8 +162,8 @@ theorem sL7_batchEval_spec {self : Ops} (hs : Ok1 R RE E G self) (asts : List Ex
     BatchSpec R RE E G U asts n extra ((sL7 E self).batchEval asts n extra) := by
   have h0 : ∀ n' extra', 1 ≤ n' → BatchSpec R RE E G U asts n' extra' ((sL2 E self).batchEval asts n' extra') :=
     fun n' extra' hn' => helper_batchEval_spec (self := self) (sup := sL0 E self) hs.simp asts n' extra'
-      (full_batchEval_spec (self := self) (sup := constrainedLayer E self frontendBase) H.oracle H.reg H.evalComplete
-        H.expReg hs.hook asts n' hn' extra')
+      (full_batchEval_spec (self := self) (sup := constrainedLayer E self frontendBase) H.oracle H.reg H.zid
+        H.evalComplete H.expReg hs.hook asts n' hn' extra')
   have h3 : ∀ ec, BatchSpec R RE E G U asts n ec ((sL3 E self).batchEval asts n ec) :=
     fun ec => mc_batchEval_spec (sup := sL2 E self) H.pick H.expReg asts hre n hn ec h0
   have h4 : ∀ ec, BatchSpec R RE E G U asts n ec ((sL6 E self).batchEval asts n ec) :=
